@@ -196,6 +196,9 @@ func StoresTo(addr *ssa.Alloc) []ssa.Value {
 	return out
 }
 
+// FreeVarBinding maps a FreeVar of a literal to the value bound in the parent.
+func FreeVarBinding(fv *ssa.FreeVar) ssa.Value { return freeVarBinding(fv) }
+
 // freeVarBinding maps a FreeVar of a literal to the value bound in the parent.
 func freeVarBinding(fv *ssa.FreeVar) ssa.Value {
 	fn := fv.Parent()
